@@ -277,6 +277,12 @@ pub fn rule_kinds() -> Vec<(&'static str, Expr)> {
         ("err-cast", mk_un("toint", lit(s("x")))),
         ("err-oob", mk_un("week", lit(Value::Int(1 << 70)))),
         ("ok-count", call("c", lit(Value::Int(1)))),
+        // arguments that are `==` but not the same value (scale of a decimal, sign of zero): a rule's outcome must not
+        // depend on another rule having called the same cacheable function with the look-alike first
+        ("ok-fn-d1.0", call("g", lit(d(10, 1)))),
+        ("ok-fn-d1.00", call("g", lit(d(100, 2)))),
+        ("ok-fn-+0", call("g", lit(Value::Float(0.0)))),
+        ("ok-fn--0", call("g", lit(Value::Float(-0.0)))),
     ]
 }
 
